@@ -2,12 +2,12 @@
 package rules
 
 import (
-	"reflect"
 	"fmt"
 	"go/constant"
 	"go/token"
 	"go/types"
 	"os"
+	"reflect"
 	"sort"
 	"strings"
 
@@ -822,4 +822,45 @@ func rulePagingElements(r *core.Run, id string, typesToCheck ...string) {
 // reflectTag extracts key:"value" from a struct tag.
 func reflectTag(tag, k string) string {
 	return reflect.StructTag(tag).Get(k)
+}
+
+// errExit is one way a function hands back its error result: a return, or —
+// where several arms were merged into one exit — one incoming edge of the
+// merged value, with the guards under which that exit is taken.
+type errExit struct {
+	val    ssa.Value
+	guards []core.Guard
+	ret    *ssa.Return
+}
+
+// errorExits expands the error returns of fn into their alternatives.
+func errorExits(fn *ssa.Function) []errExit {
+	var out []errExit
+	for ret, ev := range returnedErrors(fn) {
+		ev = core.BlockLocalLoad(ev)
+		var expand func(v ssa.Value, guards []core.Guard, d int)
+		expand = func(v ssa.Value, guards []core.Guard, d int) {
+			ph, ok := v.(*ssa.Phi)
+			if !ok || d > 3 {
+				out = append(out, errExit{v, guards, ret})
+				return
+			}
+			for i, e := range ph.Edges {
+				if i >= len(ph.Block().Preds) {
+					break
+				}
+				pred := ph.Block().Preds[i]
+				if !core.LiveEdge(pred, ph.Block()) {
+					continue
+				}
+				expand(e, core.GuardsOfEdge(pred, ph.Block()), d+1)
+			}
+		}
+		if ph, ok := ev.(*ssa.Phi); ok {
+			expand(ph, nil, 0)
+		} else {
+			out = append(out, errExit{ev, core.GuardsOf(ret), ret})
+		}
+	}
+	return out
 }
